@@ -21,6 +21,7 @@ POLY_LIST = PySide("polylist")
 POLY_DICT = PySide("polydict")
 POLY_SET = PySide("polyset")
 ITER = PySide("iter")
+FEAS_MS = int(os.environ.get("PYVC_FEAS_MS", "120"))   # path pruning budget: infeasible branches are refuted in a few ms
 
 LOGGING_CALLS = re.compile(
     r"^(trace\.)?(mutter|note|warning|log_exception_quietly|mutter_callsite|show_error|report_exception)$"
@@ -38,11 +39,12 @@ EXC_NAME = re.compile(r"(Error|Exception|Exists|Mismatch|Contention|Broken|NotHe
 
 
 class Obl:
-    __slots__ = ("name", "kind", "line", "pc", "goal", "target", "info", "trace")
+    __slots__ = ("name", "kind", "line", "pc", "goal", "target", "info", "trace", "parts")
 
     def __init__(self, name, kind, line, pc, goal, target, info=None, trace=()):
         self.name, self.kind, self.line, self.pc, self.goal, self.target, self.info = name, kind, line, pc, goal, target, info
         self.trace = trace
+        self.parts = None       # grouped obligation: [(name, goal)] solved one by one only if the conjunction fails
 
 
 class Out:
@@ -92,6 +94,7 @@ class Core:
         self.path_count = 0
         self.exit_states = []
         self.feas_cache = {}
+        self.loop_heads = {}
 
     # ------------------------------------------------------------------ locating code
     @staticmethod
@@ -176,10 +179,24 @@ class Core:
             cls._quant_cache[k] = r
         return r
 
+    def emit_group(self, kind, line, st, parts, tag="all"):
+        """One obligation for the conjunction of `parts` [(tag, goal V)]; split by the driver if it does not discharge."""
+        parts = [(n, S.lift(g)) for n, g in parts]
+        if not parts:
+            return
+        if len(parts) == 1:
+            self.emit(kind, line, st, parts[0][1], tag=parts[0][0])
+            return
+        self.emit(kind, line, st, S.And(*[g for n, g in parts]), tag=tag)
+        o = self.obls[-1]
+        suffix = o.name[o.name.index("@L"):]
+        base = "%s::%s::%s" % (self.target.path, self.target.qualname, kind)
+        o.parts = [("%s[%s]%s" % (base, n, suffix), g.t) for n, g in parts]
+
     def feasible(self, st, extra=None):
         """Path pruning only: quantified facts are left out (fewer prunes, never an unsound one)."""
         s = z3.Solver()
-        s.set("timeout", 1500)
+        s.set("timeout", FEAS_MS)
         for p in st.pc:
             if not self.has_quant(p):
                 s.add(p)
@@ -269,10 +286,11 @@ class Core:
         if not isinstance(v.s, Seq):
             return
         for f in self.folds_for(v.s):
-            if f.kind == "sum":
-                st.assume(z3.Implies(z3.Length(v.t) == 0, f.f(v.t) == 0))
-            else:
-                st.assume(z3.Implies(z3.Length(v.t) == 0, f.f(v.t)))
+            st.assume(z3.Implies(z3.Length(v.t) == 0, f.f(v.t) == f.unit()))
+        rv = self.spec.rev.get(v.s.name)
+        if rv is not None:
+            st.assume(z3.Length(rv(v.t)) == z3.Length(v.t))
+            st.assume(rv(rv(v.t)) == v.t)
         for l in self.spec.seq_lemmas:
             if l.sort == v.s:
                 st.assume(S.lift(l.stmt(v)).t)
@@ -303,10 +321,15 @@ class Core:
                     ev = S.lift(f.elem(p))
                     st.assume(f.f(t) == ev.t)
                 vals.append(f.f(t))
-            if f.kind == "sum":
-                st.assume(f.f(whole.t) == (z3.Sum(*vals) if len(vals) > 1 else (vals[0] if vals else z3.IntVal(0))))
-            else:
-                st.assume(f.f(whole.t) == (z3.And(*vals) if len(vals) > 1 else (vals[0] if vals else z3.BoolVal(True))))
+            st.assume(f.f(whole.t) == f.combine(vals))
+        rv = self.spec.rev.get(so.name)
+        if rv is not None:
+            rparts = [(t if k == "unit" else rv(t)) for (k, p), t in zip(parts, terms)]
+            for (k, p), t in zip(parts, terms):
+                if k == "unit":
+                    st.assume(rv(t) == t)
+            rparts.reverse()
+            st.assume(rv(whole.t) == (z3.Empty(so.z3()) if not rparts else (rparts[0] if len(rparts) == 1 else z3.Concat(*rparts))))
         self.track(st, whole)
         for (k, p), t in zip(parts, terms):
             self.track(st, p if k == "seq" else V(so, t))
